@@ -238,7 +238,7 @@ CHECKS['C12'] = (
 NOT_YET ='check not built yet in this session (work in progress; see DESIGN.md for the planned exploration)'
 
 ALL = ['C%02d' % i for i in range(1, 21)]
-PENDING = {'C05', 'C06', 'C08'}     # built; triage of the remaining violations on the unchanged tree not finished
+PENDING = set()     # checks that are built but not yet claimed
 
 
 def main():
